@@ -20,6 +20,9 @@ from vlib.runner import Check
 from bounded import C18_enum as E
 
 REPLAY = 'props.C18:replay'
+# instructions whose long-filler placements (real 100-column layout) also run in the quick tier
+LONG_QUICK = ('IF', 'IF_NONE', 'LAMBDA', 'LAMBDA_REC', 'DIP', 'PUSH', 'MAP', 'LOOP', 'CREATE_CONTRACT', 'EMPTY_MAP', 'VIEW',
+              'NIL', 'DROP', 'CAR')
 
 
 # ------------------------------------------------------------------------------------------------ worker
@@ -157,7 +160,7 @@ def run(ck: Check) -> int:
     for p in prims:
         jobs.append(('A', p, False, prims))
     for p in prims:
-        if thorough or E.G.signature(p)[0] in ('T', 'D', 'ANY', 'ELT', 'K'):
+        if thorough or E.G.signature(p)[0] in ('T', 'D', 'ANY', 'ELT', 'K') or p in LONG_QUICK:
             jobs.append(('A', p, True, prims))
     for ls in ([None, 30, 8] if thorough else [None, 16]):
         for sort in ('T', 'D', 'I', 'SEQI'):
